@@ -43,6 +43,10 @@ theorem hit_eq {c k : Key} (h1 : adv .uniq c k = false) (h2 : hit .uniq c k = tr
   simp at h1 h2 ⊢
   exact ⟨h2, h1.2 h2⟩
 
+theorem key_eq_of_not_adv {r : Rule} {c k : Key} (hr : r ≠ .after) (hadv : adv r c k = false) (hok : c.ok = k.ok) : c = k := by
+  cases c; cases k
+  cases r <;> simp [adv] at hadv hr hok ⊢ <;> exact ⟨hok, hadv.2 hok⟩
+
 /-! ### the shared list -/
 
 structure Good (rule : Key → Rule) (L : LSt) : Prop where
@@ -82,14 +86,24 @@ structure LinkOk (rule : Key → Rule) (L : LSt) (p n : Node) : Prop where
   le : (L.key p).ok ≤ (L.key n).ok
   ge : ∀ x ∈ aft p L.chain, (L.key n).ok ≤ (L.key x).ok
   uq : rule (L.key n) = .uniq → ∀ x ∈ L.chain, L.key x ≠ L.key n
-  side : (∀ x ∈ aft p L.chain, (L.key n).ok < (L.key x).ok) ∨
-         (rule (L.key n) = .before ∧ ∃ c r, aft p L.chain = c :: r ∧ L.key c = L.key n)
+
+/-- what the other walkers of the same key need from a link (not needed for keys with rule `after`) -/
+def LinkSide (rule : Key → Rule) (L : LSt) (p n : Node) : Prop :=
+  (∀ x ∈ aft p L.chain, (L.key n).ok < (L.key x).ok) ∨
+  (rule (L.key n) = .before ∧ ∃ c r, aft p L.chain = c :: r ∧ L.key c = L.key n)
+
+/-- what a link has to respect so that equivalent `before`-rule keys stay contiguous: a `before` node goes directly in
+front of an equivalent key or there is none, and no link separates two adjacent nodes with the same key by another key -/
+structure LinkContig (rule : Key → Rule) (L : LSt) (p n : Node) : Prop where
+  c1 : rule (L.key n) = .before →
+    (∃ c r, aft p L.chain = c :: r ∧ L.key c = L.key n) ∨ (∀ x ∈ L.chain, L.key x ≠ L.key n)
+  c2 : ∀ c r, aft p L.chain = c :: r → L.key p = L.key c → L.key n = L.key p
 
 def ActOk (rule : Key → Rule) (L : LSt) (t : Tid) : Act → Prop
   | .nop => True
   | .alloc _ t' => t' = t
   | .setNext n _ => L.owner n = t ∧ n ∉ L.chain ∧ n < L.fresh
-  | .link p n => L.owner n = t ∧ LinkOk rule L p n
+  | .link p n => L.owner n = t ∧ LinkOk rule L p n ∧ LinkSide rule L p n ∧ LinkContig rule L p n
 
 theorem good_link {rule} {L : LSt} {p n : Node} (g : Good rule L) (h : LinkOk rule L p n) :
     Good rule (L.apply (.link p n)) := by
@@ -187,7 +201,7 @@ theorem good_apply {rule} {L : LSt} {t : Tid} {a : Act} (g : Good rule L) (h : A
   | nop => exact g
   | alloc k t' => exact good_alloc g k t'
   | setNext n v => exact good_setNext g h.2.1 v
-  | link p n => exact good_link g h.2
+  | link p n => exact good_link g h.2.1
 
 /-! ### what stays true for allocated nodes under any action -/
 
@@ -257,6 +271,8 @@ def ResOk (L : LSt) (t : Tid) : Res → Prop
   | .find k must r => (must = true → r ≠ none) ∧ ∀ n, r = some n → n ∈ L.chain ∧ L.key n = k
   | .trav seen snap => seen.Sublist L.chain ∧ ∀ x ∈ snap, x ∈ seen
   | .misuse => True
+  | .touched _ => True
+  | .broken _ => False
 
 /-! ### stability of the other threads' invariants -/
 
@@ -292,7 +308,7 @@ theorem insinv_stable {rule} {L : LSt} {t u : Tid} {a : Act} {k : Key} {prev new
       exact h.behind hr x hx hkx
     | setNext => exact h.behind hr x hx hkx
     | link p n =>
-      obtain ⟨_, hl⟩ := ha
+      obtain ⟨_, hl, hside, _⟩ := ha
       simp only [LSt.apply] at hx hkx ⊢
       rcases mem_insAfter.mp hx with hx | ⟨hxn, _⟩
       · exact mem_aft_insAfter (h.behind hr x hx hkx)
@@ -303,7 +319,7 @@ theorem insinv_stable {rule} {L : LSt} {t u : Tid} {a : Act} {k : Key} {prev new
           rw [aft_insAfter_self hl.p_mem]; simp
         · have hqn : prev ≠ x := fun he => hl.n_notin (he ▸ h.prev_mem)
           have hpa : p ∈ aft prev L.chain := by
-            rcases hl.side with hs | ⟨_, c, r, hc, hkc⟩
+            rcases hside with hs | ⟨_, c, r, hc, hkc⟩
             · rcases aft_total h.prev_mem hl.p_mem hqp with h1 | h1
               · exact h1
               · have := hs prev h1
@@ -345,12 +361,32 @@ theorem trinv_stable {rule} {L : LSt} {t : Tid} {a : Act} {prev : Node} {seen sn
     | setNext => exact h.sub
     | link p n =>
       simp only [LSt.apply]
-      have : prev ≠ n := fun he => ha.2.n_notin (he ▸ h.prev_mem)
+      have : prev ≠ n := fun he => ha.2.1.n_notin (he ▸ h.prev_mem)
       exact h.sub.trans (upto_sublist_insAfter this)
   · intro x hx
     rcases h.cover x hx with h1 | h1
     · exact Or.inl h1
     · exact Or.inr (mem_aft_apply h1)
+
+/-- nobody else writes a thread's private node -/
+theorem private_next_stable {rule} {L : LSt} {t u : Tid} {a : Act} {k : Key} {prev new : Node} {curr : Option Node}
+    (_g : Good rule L) (ha : ActOk rule L t a) (hut : u ≠ t) (h : InsInv rule L u k prev new)
+    (hn : L.next new = curr) : (L.apply a).next new = curr := by
+  have hne : ∀ n, L.owner n = t → new ≠ n := by
+    intro n hn' he
+    rw [← he, h.own] at hn'
+    exact hut hn'
+  cases a with
+  | nop => exact hn
+  | alloc k' t' =>
+    have := h.lt
+    simp only [LSt.apply, upd]
+    rw [if_neg (by omega)]; exact hn
+  | setNext n v =>
+    simp only [LSt.apply, upd, hne n ha.1, ite_false]; exact hn
+  | link p n =>
+    have : new ≠ p := fun he => h.notin (he ▸ ha.2.1.p_mem)
+    simp only [LSt.apply, upd, this, ite_false]; exact hn
 
 theorem tinv_stable {rule} {L : LSt} {t u : Tid} {a : Act} {th : Th}
     (g : Good rule L) (ha : ActOk rule L t a) (hut : u ≠ t) (h : TInv rule L u th) :
@@ -378,7 +414,7 @@ theorem tinv_stable {rule} {L : LSt} {t u : Tid} {a : Act} {th : Th}
     | setNext n v =>
       simp only [LSt.apply, upd, hne n ha.1, ite_false]; exact h.2.2
     | link p n =>
-      have : th.new ≠ p := fun he => h.1.notin (he ▸ ha.2.p_mem)
+      have : th.new ≠ p := fun he => h.1.notin (he ▸ ha.2.1.p_mem)
       simp only [LSt.apply, upd, this, ite_false]; exact h.2.2
   · rename_i hpc; simp only [hpc] at h
     exact finv_stable g ha h
@@ -408,5 +444,7 @@ theorem resok_stable {rule} {L : LSt} {t u : Tid} {a : Act} {r : Res}
     rw [key_apply n (g.alloc n h1) ha]; exact h2
   | trav seen snap => exact ⟨h.1.trans chain_sub_apply, h.2⟩
   | misuse => trivial
+  | touched _ => trivial
+  | broken _ => exact h
 
 end TbbVerif.C12
